@@ -349,6 +349,16 @@ class ValueSpecBase(ValueSpec):
     """Returns if current spec can receive all values from the other spec."""
     if self is other:
       return True
+    if isinstance(other, Enum) and not isinstance(self, Enum):
+      # An Enum is a finite set of values (it may extend a spec of any type):
+      # it is compatible iff each of its values is acceptable.
+      values = [other.default] if other.frozen else other.values
+      for v in values:
+        try:
+          self.apply(copy.deepcopy(v))
+        except (TypeError, ValueError, KeyError):
+          return False
+      return True
     if not isinstance(other, self.__class__):
       return False
     if not self.is_noneable and other.is_noneable:
